@@ -689,3 +689,109 @@ def load_terms(data):
             else:
                 built.append(_mk(op, tuple(a), sort))
     return [built[i] for i in roots]
+
+
+# ------------------------------------------------------------------ digest
+_digests = {}
+
+
+def digest(t):
+    """Structural digest of a term, stable across processes (names fresh
+    symbols that are *functions* of a term, e.g. the rounding of x)."""
+    import hashlib
+    d = _digests.get(id(t))
+    if d is not None:
+        return d
+    stack = [t]
+    while stack:
+        x = stack[-1]
+        if id(x) in _digests:
+            stack.pop()
+            continue
+        pend = [a for a in x.args if isinstance(a, T) and id(a) not in _digests]
+        if pend:
+            stack.extend(pend)
+            continue
+        h = hashlib.md5()
+        h.update(('%s|%s|%s|' % (x.op, x.sort, x.val)).encode())
+        for a in x.args:
+            h.update(_digests[id(a)].encode() if isinstance(a, T) else str(a).encode())
+        _digests[id(x)] = h.hexdigest()[:16]
+        stack.pop()
+    return _digests[id(t)]
+
+
+# ------------------------------------------------------------- grid typing
+_gridmemo = {}
+
+
+def _dec_places(fr):
+    d = fr.denominator
+    p = 0
+    while d % 10 == 0:
+        d //= 10
+        p += 1
+    # remaining factors 2 and 5 also terminate
+    q = d
+    n2 = n5 = 0
+    while q % 2 == 0:
+        q //= 2
+        n2 += 1
+    while q % 5 == 0:
+        q //= 5
+        n5 += 1
+    if q != 1:
+        return None
+    return p + max(n2, n5)
+
+
+def grid_places(t):
+    """Smallest p such that the term's value is provably a multiple of 10^-p
+    (given that Int-sorted subterms are integers), or None.  Used to make
+    round(x, p) the identity on operands that are already on the grid."""
+    memo = _gridmemo
+    k0 = id(t)
+    if k0 in memo:
+        return memo[k0]
+    stack = [t]
+    while stack:
+        x = stack[-1]
+        if id(x) in memo:
+            stack.pop()
+            continue
+        pend = [a for a in x.args if isinstance(a, T) and id(a) not in memo]
+        if pend:
+            stack.extend(pend)
+            continue
+        op = x.op
+        g = None
+        if x.sort == 'I':
+            g = 0
+        elif x.sort == 'B':
+            g = 0
+        elif op == 'const':
+            g = _dec_places(x.val)
+        elif op == 'toreal':
+            g = 0
+        elif op in ('add', 'sub'):
+            a, b = memo[id(x.args[0])], memo[id(x.args[1])]
+            g = None if a is None or b is None else max(a, b)
+        elif op == 'neg':
+            g = memo[id(x.args[0])]
+        elif op == 'mul':
+            a, b = memo[id(x.args[0])], memo[id(x.args[1])]
+            g = None if a is None or b is None else a + b
+        elif op == 'ite':
+            a, b = memo[id(x.args[1])], memo[id(x.args[2])]
+            g = None if a is None or b is None else max(a, b)
+        elif op == 'div':
+            a = memo[id(x.args[0])]
+            den = x.args[1]
+            if a is not None and den.is_const() and den.val != 0:
+                inv = _dec_places(1 / den.val)
+                g = None if inv is None else a + inv
+        if g is not None and g > 9:
+            g = None
+        memo[id(x)] = g
+        stack.pop()
+    return memo[k0]
